@@ -312,12 +312,23 @@ where
 
                 let mut info_hashes_by_worker: BTreeMap<usize, Vec<InfoHash>> = BTreeMap::new();
 
-                for info_hash in info_hashes.into_iter() {
+                // Apply the limit before splitting the request up. Otherwise,
+                // each swarm worker would apply it to its own part only.
+                for info_hash in info_hashes
+                    .into_iter()
+                    .take(self.config.protocol.max_scrape_torrents)
+                {
                     let info_hashes = info_hashes_by_worker
                         .entry(calculate_request_consumer_index(&self.config, info_hash))
                         .or_default();
 
                     info_hashes.push(info_hash);
+                }
+
+                if info_hashes_by_worker.is_empty() {
+                    return Ok(Response::Scrape(ScrapeResponse {
+                        files: Default::default(),
+                    }));
                 }
 
                 let pending_worker_responses = info_hashes_by_worker.len();
